@@ -240,14 +240,17 @@ fn gen_history(r: &mut Rng, ntargets: usize, nfakes: usize, thorough: bool) -> V
     let lifetimes = r.range(1, if thorough { 4 } else { 3 });
     for _ in 0..lifetimes {
         ops.push(Op::New);
-        let n = match r.below(6) {
-            0 => 1,
-            1 => 2,
-            2 | 3 => r.range(2, 6),
-            _ => r.range(3, if thorough { 40 } else { 14 }),
+        // one lifetime in twelve is long (more than 32 guards alive, many of them on repeated targets):
+        // beyond the sizes up to which library sorts and small-vector fast paths behave like stable ones
+        let n = match r.below(12) {
+            0 | 1 => 1,
+            2 | 3 => 2,
+            4..=7 => r.range(2, 6),
+            8..=10 => r.range(3, if thorough { 40 } else { 14 }),
+            _ => r.range(33, 80),
         };
         // restrict to a small subset so that repetition is frequent
-        let sub = r.range(1, ntargets.min(4) as u64) as usize;
+        let sub = if n > 32 { r.range(4, ntargets.min(12) as u64) as usize } else { r.range(1, ntargets.min(4) as u64) as usize };
         let subset: Vec<usize> = (0..sub).map(|_| r.below(ntargets as u64) as usize).collect();
         for _ in 0..n {
             let t = if r.chance(3, 4) { *r.pick(&subset) } else { r.below(ntargets as u64) as usize };
